@@ -15,7 +15,7 @@ h=$(python3 -c "import hashlib;print(hashlib.sha1('$wt'.encode()).hexdigest()[:6
 # warm start: reuse the dependency artefacts of the main build caches
 [ -d /verif/.build/daemon ] && [ ! -d /verif/.build/daemon-alt$h ] && cp -a --reflink=auto /verif/.build/daemon /verif/.build/daemon-alt$h
 [ -d /verif/.build/pt ] && [ ! -d /verif/.build/pt-alt$h ] && cp -a --reflink=auto /verif/.build/pt /verif/.build/pt-alt$h
-( cd /verif && VERIF_REPO="$wt" VERIF_EVIDENCE_DIR="$out" VERIF_REPLAY_DIR="$out" ./check "$prop" --tier "$tier" ) > "$out/stdout.txt" 2> "$out/stderr.txt"
+( cd /verif && VERIF_ONLY="${VERIF_ONLY:-}" VERIF_REPO="$wt" VERIF_EVIDENCE_DIR="$out" VERIF_REPLAY_DIR="$out" ./check "$prop" --tier "$tier" ) > "$out/stdout.txt" 2> "$out/stderr.txt"
 rc=$?
 echo "seeded=$id property=$prop rc=$rc"
 grep -E "VIOLATION|KNOWN-FINDING" "$out/stdout.txt"
